@@ -1,15 +1,21 @@
 (** C15 - Human-readable formatters are total and faithful.
-    Only statements; every proof is [exact <lemma from IndProofs.FmtProofs>]. *)
-From IndModel Require Import Base Fmt.
+    Only statements; every proof is [exact <lemma>] from IndProofs.FmtProofs (integer / list
+    parts, closed under the global context) or IndProofs.FmtF64Proofs (binary64 parts, Flocq).
+    Vocabulary: model/Fmt.v is the transcription of src/format.rs, model/FmtSpec.v holds the
+    specification-side definitions ([group], [dval], [hd_idx], [near_within], [bytes_x] ...).
+    Clause -> theorem table: docs/C15.md. *)
+From IndModel Require Import Base Fmt FmtSpec.
 From IndGen Require Import Constants.
-From IndProofs Require Import FmtProofs.
+From IndProofs Require Import FmtProofs FmtF64Proofs.
 From Coq Require Import List NArith ZArith String SpecFloat.
 Import ListNotations.
 Open Scope N_scope.
 
-(** Totality: no formatter reaches a panic site (usize underflow of [len - idx - 1],
-    Duration overflow of [cur + cur / 2], [UNITS[idx]] out of range, [UNITS.len() - 1])
-    for ANY input: every N (so every u64), every 64-bit pattern / precision, every Duration. *)
+(** Totality: no formatter reaches a panic site (1 usize underflow of [len - idx - 1],
+    2 Duration overflow of [cur + cur / 2], 3 [UNITS[idx]] out of range, 4 [UNITS.len() - 1],
+    5 [prefixes[prefix - 1]] of number_prefix) for ANY input: every N (so every u64), every
+    64-bit pattern / precision, every Duration.  (The precision is an argument of the model;
+    a format-string precision above u16::MAX cannot be written at all - C14.) *)
 Theorem C15_total : forall c : fcase, exists s, fmt_model c = Ok s.
 Proof. exact fmt_total. Qed.
 Print Assumptions C15_total.
@@ -21,11 +27,7 @@ Theorem C15_count_numeral : forall n, exists out,
   /\ Forall is_digit (dec n) /\ dval (dec n) = n
   /\ (0 < n -> exists c r, dec n = c :: r /\ c <> CH_0)
   /\ (0 < n -> 10 ^ (len (dec n) - 1) <= n < 10 ^ len (dec n)).
-Proof.
-  intros n. exists (group (dec n)). split; [apply human_count_ok|].
-  split; [apply strip_group, digit_not_comma, dec_digits|].
-  split; [apply dec_digits|]. split; [apply dval_dec|]. split; [apply dec_head|apply dec_length].
-Qed.
+Proof. exact count_numeral. Qed.
 Print Assumptions C15_count_numeral.
 
 (** HumanCount, commas: the character at index j is a comma iff its distance to the end
@@ -36,10 +38,7 @@ Theorem C15_count_commas : forall n, exists out,
   /\ List.length out = (List.length (dec n) + (List.length (dec n) - 1) / 3)%nat
   /\ forall j, (j < List.length out)%nat ->
        (nth j out 0 =? CH_COMMA) = (((List.length out - j) mod 4 =? 0)%nat).
-Proof.
-  intros n. exists (group (dec n)). split; [apply human_count_ok|].
-  split; [apply group_length|apply group_commas, digit_not_comma, dec_digits].
-Qed.
+Proof. exact count_commas. Qed.
 Print Assumptions C15_count_commas.
 
 (** FormattedDuration prints [Dd ]HH:MM:SS of the whole seconds: two digits per field,
@@ -71,10 +70,7 @@ Theorem C15_hd_select : forall d,
   /\ (forall j, (j < hd_idx d)%nat -> qualifies d j = false)
   /\ ((hd_idx d < 5)%nat -> qualifies d (hd_idx d) = true)
   /\ (forall d', d <= d' -> (hd_idx d' <= hd_idx d)%nat).
-Proof.
-  intros d. split; [apply hd_loop_spec|]. destruct (hd_idx_rule d) as (A & B & C).
-  repeat split; try assumption. intros d'. apply hd_idx_antitone.
-Qed.
+Proof. exact hd_select. Qed.
 Print Assumptions C15_hd_select.
 
 (** the five switch points in nanoseconds: 544 d, 10 d, 35.5 h, 89.5 min, 89.5 s *)
@@ -102,19 +98,80 @@ Theorem C15_hd_shape : forall secs nanos alternate,
 Proof. exact human_duration_spec. Qed.
 Print Assumptions C15_hd_shape.
 
+(** HumanDuration, nearest count (binary64 count of line 120, every Duration): the unclamped
+    count r satisfies |r unit - d| <= unit/2 + d/2^50 ([near_within], integers, ns; the
+    second term is the binary64 slack: 3 roundings); the printed count t is r, except that a
+    "1 unit" above seconds is printed as "2 units" - only for d between the switch point
+    (1.5 unit - half the next smaller unit) and 1.5 unit (+ slack) - so that always
+    |t unit - d| <= (unit + next smaller unit)/2 + d/2^50. *)
+Theorem C15_hd_nearest : forall secs nanos,
+  dur_valid secs nanos ->
+  let d := dur_ns secs nanos in
+  let i := hd_idx d in
+  let r := hd_raw_count secs nanos (unit_secs i) in
+  let t := hd_count secs nanos i in
+  near_within r (unit_ns i) d (unit_ns i)
+  /\ (t = r \/ ((i < 5)%nat /\ r < 2 /\ t = 2
+                /\ 3 * unit_ns i <= 2 * d + unit_ns (S i)
+                /\ 2 ^ 51 * d <= 2 ^ 51 * unit_ns i + 2 ^ 50 * unit_ns i + 2 * d))
+  /\ near_within t (unit_ns i) d (unit_ns i + unit_ns (S i)).
+Proof. exact hd_nearest. Qed.
+Print Assumptions C15_hd_nearest.
+
+(** HumanDuration is monotone in the duration: for ALL pairs of Durations d <= d' the quantity
+    shown (count x unit, in ns) does not decrease - inside a unit and across every unit
+    switch (the largest value shown with a unit is below "2" of the next larger unit). *)
+Theorem C15_hd_monotone : forall secs nanos secs' nanos',
+  dur_valid secs nanos -> dur_valid secs' nanos' ->
+  dur_ns secs nanos <= dur_ns secs' nanos' ->
+  let i := hd_idx (dur_ns secs nanos) in
+  let i' := hd_idx (dur_ns secs' nanos') in
+  hd_count secs nanos i * unit_ns i <= hd_count secs' nanos' i' * unit_ns i'.
+Proof. exact hd_monotone. Qed.
+Print Assumptions C15_hd_monotone.
+
+(** HumanBytes / BinaryBytes (binary = true, base 1024) and DecimalBytes (binary = false,
+    base 1000), every u64 n, x = [bytes_x n] = n as f64 (see [C15_bytes_value]):
+    k <= 6 is the LARGEST FITTING PREFIX of x, exactly: base^k <= x < base^(k+1);
+    k = 0: the output is the whole number n and " B";
+    k > 0: the output is q/100 with exactly two decimals ([fixed_digits 2 q], see
+    [C15_fixed_digits]), a space, the k-th symbol and "B", where q is x / base^k in
+    hundredths rounded to nearest - exactly, ties to even, for base 1024 (the divisions are
+    exact), and within 2^-32 of a hundredth for base 1000 (k <= 6 rounded divisions);
+    100 <= q <= 100 base (q = 100 base is reached: "1024.00 KiB", the prefix is chosen before
+    the value is rounded to two decimals - docs/C15.md, Interpretations). *)
+Theorem C15_bytes_shape : forall binary n, n <= U64MAX ->
+  let b := bytes_base binary in
+  let x := bytes_x n in
+  exists (k : nat) (q : N),
+    (k <= 6)%nat
+    /\ (k = 0%nat \/ b ^ N.of_nat k <= x) /\ x < b ^ (N.of_nat k + 1)
+    /\ bytes_fmt binary n =
+         Ok (if (k =? 0)%nat then dec n ++ str " B"
+             else fixed_digits 2 q ++ [CH_SP] ++ str (bytes_sym binary k) ++ str "B")
+    /\ (k = 0%nat -> x = n)
+    /\ ((0 < k)%nat -> hundredths_approx q x (b ^ N.of_nat k) /\ 100 <= q <= 100 * b)
+    /\ ((0 < k)%nat -> binary = true -> hundredths_exact q x (b ^ N.of_nat k)).
+Proof. exact bytes_shape. Qed.
+Print Assumptions C15_bytes_shape.
+
+(** the value that is formatted, [self.0 as f64]: n itself up to 2^53, beyond that the
+    nearest binary64 number (an integer, relative distance at most 2^-53) *)
+Theorem C15_bytes_value : forall n, n <= U64MAX ->
+  2 ^ 53 * (bytes_x n - n) <= n /\ 2 ^ 53 * (n - bytes_x n) <= n /\ (n <= 2 ^ 53 -> bytes_x n = n).
+Proof. exact bytes_x_near. Qed.
+Print Assumptions C15_bytes_value.
+
 (** number_prefix loop: k divisions, k the first index (<= 8) where the running amount is
-    below kilo ("largest fitting prefix" of the binary64 amounts). *)
+    below kilo - the law of the loop for ARBITRARY binary64 amounts and kilo (auxiliary; what
+    it means for the byte formatters is [C15_bytes_shape]). *)
 Theorem C15_prefix_loop : forall a kilo,
   exists k : nat,
     np_loop 9 a kilo 0 = (div_iter k a kilo, N.of_nat k)
     /\ (k <= 8)%nat
     /\ (forall j, (j < k)%nat -> BinarySingleNaN.Bleb kilo (div_iter j a kilo) = true)
     /\ (k = 8%nat \/ BinarySingleNaN.Bleb kilo (div_iter k a kilo) = false).
-Proof.
-  intros a kilo. destruct (np_loop_spec 9 a kilo 0) as (k & H1 & H2 & H3 & H4); [lia|cbn; lia|].
-  exists k. rewrite N.add_0_l in *. split; [exact H1|]. split; [lia|]. split; [exact H3|].
-  destruct H4 as [H4|H4]; [left; lia|right; exact H4].
-Qed.
+Proof. exact prefix_loop. Qed.
 Print Assumptions C15_prefix_loop.
 
 (** {:.p}: digits of q / 10^p, and for p > 0 a point and exactly p digits of q mod 10^p. *)
@@ -123,10 +180,7 @@ Theorem C15_fixed_digits : forall p q,
     (if p =? 0 then [] else CH_DOT :: lastdigs (N.to_nat p) (q mod 10 ^ p))
   /\ List.length (lastdigs (N.to_nat p) (q mod 10 ^ p)) = N.to_nat p
   /\ dval (lastdigs (N.to_nat p) (q mod 10 ^ p)) = q mod 10 ^ p.
-Proof.
-  intros p q. split; [apply fixed_digits_spec|]. split; [apply lastdigs_length|].
-  apply lastdigs_val. rewrite N2Nat.id. apply N.mod_lt. apply N.pow_nonzero. discriminate.
-Qed.
+Proof. exact fixed_digits_full. Qed.
 Print Assumptions C15_fixed_digits.
 
 (** HumanFloatCount for a finite non-zero double (-1)^s m 2^e at precision p (default 4):
@@ -167,7 +221,7 @@ Theorem C15_float_specials : forall precision,
   (forall s, human_float_count_sf precision (S754_zero s) = Ok (sign_str s ++ [CH_0]))
   /\ (forall s, human_float_count_sf precision (S754_infinity s) = Ok (sign_str s ++ str "inf"))
   /\ human_float_count_sf precision S754_nan = Ok (str "NaN").
-Proof. intros p. split; [apply hfc_zero|]. split; [apply hfc_inf|apply hfc_nan]. Qed.
+Proof. exact float_specials. Qed.
 Print Assumptions C15_float_specials.
 
 Theorem C15_decode_cases : forall bits,
@@ -182,10 +236,7 @@ Theorem C15_group_law : forall cs, Forall is_digit cs ->
   /\ List.length (group cs) = (List.length cs + (List.length cs - 1) / 3)%nat
   /\ forall j, (j < List.length (group cs))%nat ->
        (nth j (group cs) 0 =? CH_COMMA) = (((List.length (group cs) - j) mod 4 =? 0)%nat).
-Proof.
-  intros cs H. pose proof (digit_not_comma cs H) as H'.
-  split; [apply strip_group; exact H'|]. split; [apply group_length|apply group_commas; exact H'].
-Qed.
+Proof. exact group_law. Qed.
 Print Assumptions C15_group_law.
 
 (* ------------------------------------------------------------------ non-vacuity *)
@@ -195,6 +246,32 @@ Example C15_ex_fduration : formatted_duration 18446744073709551615 999999999 = s
 Proof. vm_compute. reflexivity. Qed.
 Example C15_ex_hd : human_duration 5369 999999999 false = Ok (str "89 minutes")
   /\ human_duration 5370 0 false = Ok (str "2 hours") /\ hd_idx (dur_ns 5370 0) = 3%nat.
+Proof. vm_compute. repeat split. Qed.
+Example C15_ex_hd_valid : dur_valid 5369 999999999 /\ dur_valid U64MAX 999999999.
+Proof. split; split; vm_compute; try reflexivity; discriminate. Qed.
+(** across the switch from seconds to minutes: 89.499999999 s shows 89 s, 89.5 s shows 2 min *)
+Example C15_ex_hd_switch :
+  hd_count 89 499999999 (hd_idx (dur_ns 89 499999999)) * unit_ns (hd_idx (dur_ns 89 499999999)) = 89000000000
+  /\ hd_count 89 500000000 (hd_idx (dur_ns 89 500000000)) * unit_ns (hd_idx (dur_ns 89 500000000)) = 120000000000.
+Proof. vm_compute. split; reflexivity. Qed.
+(** [near_within] discriminates: 89.4999999998 min is "89 minutes", not "90 minutes" (off by 1 ns more than half a unit) *)
+Example C15_ex_near : near_within 89 (unit_ns 4) (dur_ns 5369 999999999) (unit_ns 4)
+  /\ ~ near_within 90 (unit_ns 4) (dur_ns 5369 999999999) (unit_ns 4).
+Proof.
+  unfold near_within. split; [split; vm_compute; discriminate|].
+  intros [A _]. vm_compute in A. apply A. reflexivity.
+Qed.
+(** the clamp window: 89.5 s .. 90 s is "2 minutes" although the nearest count is 1 *)
+Example C15_ex_hd_clamp : hd_raw_count 89 500000000 60 = 1 /\ hd_count 89 500000000 4 = 2
+  /\ human_duration 89 500000000 false = Ok (str "2 minutes").
+Proof. vm_compute. repeat split. Qed.
+Example C15_ex_bytes : bytes_fmt true 1536 = Ok (str "1.50 KiB") /\ bytes_fmt false 1500 = Ok (str "1.50 kB")
+  /\ bytes_fmt true 1023 = Ok (str "1023 B") /\ bytes_fmt false U64MAX = Ok (str "18.45 EB")
+  /\ bytes_fmt true U64MAX = Ok (str "16.00 EiB") /\ bytes_x U64MAX = 2 ^ 64.
+Proof. vm_compute. repeat split. Qed.
+(** the prefix is chosen before the value is rounded to two decimals: q = 100 base is reached *)
+Example C15_ex_bytes_boundary : bytes_fmt true 1048575 = Ok (str "1024.00 KiB")
+  /\ bytes_fmt false 999999 = Ok (str "1000.00 kB") /\ bytes_fmt false 999994 = Ok (str "999.99 kB").
 Proof. vm_compute. repeat split. Qed.
 Example C15_ex_float : human_float_count (Some 0) 4612811918334230528 (* 2.5 *) = Ok (str "2")
   /\ human_float_count None 13921425274538295296 (* -1234567.25 *) = Ok (str "-1,234,567.25").
